@@ -110,6 +110,44 @@ impl<'a> World<'a> {
         json!({"ev": "merge", "rep": rep})
     }
 
+    /// Reporter::report() with a persistence directory: the file it writes must hold exactly the merged sums.
+    /// A second reporter on its own queue is fed with the same merged entries (the shared one has no output location).
+    fn report_file(&mut self, dir: &str) -> Value {
+        let _ = std::fs::remove_dir_all(dir);
+        std::fs::create_dir_all(dir).unwrap();
+        let q = Arc::new(StatsQueue::new(4));
+        let merged = self.reporter.verif_client_stats();
+        let mut rep2 = Reporter::new(q.clone(), &Duration::from_secs(3600), Some(std::path::PathBuf::from(dir)));
+        if !merged.is_empty() { let _ = q.push(merged); }
+        rep2.receive_client_stats();
+        rep2.report();
+        let mut rows = vec![vec![0u64; 9]; N_ADDRS as usize];
+        let mut files = 0;
+        let mut readable = true;
+        if let Ok(rd) = std::fs::read_dir(dir) {
+            for e in rd.flatten() {
+                files += 1;
+                let f = match std::fs::File::open(e.path()) { Ok(f) => f, Err(_) => { readable = false; continue; } };
+                let dec = match zstd::Decoder::new(f) { Ok(d) => d, Err(_) => { readable = false; continue; } };
+                let mut rdr = csv::Reader::from_reader(dec);
+                let headers: Vec<String> = rdr.headers().map(|h| h.iter().map(|x| x.to_string()).collect()).unwrap_or_default();
+                let col = |name: &str| headers.iter().position(|h| h == name);
+                let order = ["rfc_requests", "classic_requests", "invalid_requests", "failed_send_attempts", "retried_send_attempts", "health_checks",
+                             "rfc_responses_sent", "classic_responses_sent", "bytes_sent"];
+                for rec in rdr.records().flatten() {
+                    let ip = col("ip_addr").and_then(|c| rec.get(c)).unwrap_or("");
+                    let id: u64 = ip.rsplit('.').next().and_then(|x| x.parse().ok()).unwrap_or(0);
+                    if id >= 1 && id <= N_ADDRS {
+                        for (k, name) in order.iter().enumerate() {
+                            rows[id as usize - 1][k] = col(name).and_then(|c| rec.get(c)).and_then(|x| x.parse().ok()).unwrap_or(u64::MAX >> 40);
+                        }
+                    } else { readable = false; }
+                }
+            }
+        }
+        json!({"ev": "report_file", "files": files, "readable": readable, "rows": rows, "expect_file": !self.reporter.verif_client_stats().is_empty()})
+    }
+
     fn report(&mut self) -> Value {
         // Reporter::processing_loop: report() then clear
         self.reporter.verif_clear();
@@ -171,7 +209,11 @@ pub fn record(seed: u64, tier: &str, out_path: &str) {
         }
         let e = world.merge();
         writeln!(out, "{}", e).unwrap();
+        let e = world.report_file(&format!("{}.persist", out_path));
+        writeln!(out, "{}", e).unwrap();
+        events += 2;
     }
+    let _ = std::fs::remove_dir_all(format!("{}.persist", out_path));
     out.flush().unwrap();
     println!("{}", json!({"rec": "summary", "events": events}));
 }
